@@ -15,6 +15,7 @@ import (
 	"github.com/wormhole-foundation/example-near-light-client/plonk/gates"
 	"github.com/wormhole-foundation/example-near-light-client/types"
 
+	"verifharness/engine"
 	"verifharness/fw"
 	"verifharness/ref"
 )
@@ -259,7 +260,37 @@ func init() {
 							return fw.Violate("supported_identifier_refused:"+spec.Type, fmt.Sprintf("%q", trunc(id, 120)))
 						}
 						if got != want {
-							return fw.Violate("wrong_gate_or_parameters:"+spec.Type, fmt.Sprintf("identifier %q resolved to %s, stated %s", trunc(id, 120), trunc(got, 120), trunc(want, 120)))
+							// Gate.Id() is only a description; before calling it a violation make sure the
+							// resolved gate really behaves differently from the stated one (a changed Id()
+							// format alone is not a defect)
+							r := ctx.Rand("behaviour/" + c.ID)
+							differs := false
+							for k := 0; k < 4 && !differs; k++ {
+								consts := make([]ref.E, c15Consts)
+								for i := range consts {
+									consts[i] = c15RandE(r)
+								}
+								wires := make([]ref.E, c15Wires)
+								for i := range wires {
+									wires[i] = c15RandE(r)
+								}
+								pih := ref.HashOut{randGL(r), randGL(r), randGL(r), randGL(r)}
+								wantV := ref.EvalUnfiltered(spec, ref.Vars{Constants: consts, Wires: wires, PIHash: pih})
+								gotV, res := evalGateCircuit(id, consts, wires, pih)
+								if res.Verdict != engine.Accept || len(gotV) != len(wantV) {
+									differs = true
+									break
+								}
+								for i := range wantV {
+									if gotV[i] != wantV[i] {
+										differs = true
+									}
+								}
+							}
+							if differs {
+								return fw.Violate("wrong_gate_or_parameters:"+spec.Type, fmt.Sprintf("identifier %q resolved to %s, stated %s (and the resolved gate evaluates differently from the stated one)", trunc(id, 120), trunc(got, 120), trunc(want, 120)))
+							}
+							o.Inc("id_text_differs_but_behaviour_matches")
 						}
 						o.Inc("supported_resolved_" + spec.Type)
 					} else {
